@@ -154,6 +154,15 @@ pub fn json_has_dup_key(b: &[u8]) -> bool {
 	}
 }
 
+/// Known finding K7's class (first half): a complete first JSON value can be
+/// read from the start of the bytes without any UTF-8 check (what the JSON
+/// detection trial does on a reader).
+pub fn json_first_value_parses(b: &[u8]) -> bool {
+	use serde::Deserialize;
+	let mut de = serde_json::Deserializer::from_slice(b);
+	serde::de::IgnoredAny::deserialize(&mut de).is_ok()
+}
+
 fn prefix_comparable(a: &[u8], b: &[u8]) -> bool {
 	a.starts_with(b) || b.starts_with(a)
 }
@@ -199,6 +208,9 @@ pub fn compare(out: &mut Out, label: &str, bytes: &[u8], from: Option<Fmt>, to: 
 		"K2-yaml-zero-documents"
 	} else if eff == Some(Fmt::Json) && to == Fmt::Toml && json_has_dup_key(bytes) {
 		"K3-json-dup-key-to-toml"
+	} else if from.is_none() && std::str::from_utf8(bytes).is_err() && json_first_value_parses(bytes) && eff != Some(Fmt::Json) {
+		// Detection chose differently in the two supply modes (K7).
+		"K7-json-trial-non-utf8"
 	} else {
 		""
 	};
